@@ -54,6 +54,20 @@ func cuts(rng *rand.Rand, n int, fields []rc.Field, exhaustiveBelow int) []int {
 				set[k+d] = true
 			}
 		}
+		// long strings / buffers: cuts around the sizes at which a chunked reader would change chunk
+		if f.Kind != "count" && f.Val > 4096 {
+			body := f.Off + 4
+			for _, at := range []int{4096, 8192, 16384, 32768, 65536, 131072} {
+				for _, d := range []int{-1, 0, 1, 7} {
+					if k := body + at + d; k > body && k < n && at <= int(f.Val) {
+						set[k] = true
+					}
+				}
+			}
+			for j := 0; j < 8; j++ {
+				set[body+rng.Intn(int(f.Val))] = true
+			}
+		}
 		if len(set) > 400 {
 			break
 		}
@@ -135,7 +149,7 @@ func truncClass(t *rc.Type) string {
 }
 
 func c08(c *wk.Ctx) {
-	c.Note("rule", "valid encodings (messages, dynamic values, typed data of random signatures, MetaObject, ObjectReference, ServiceInfo, CapabilityMap, Go values through the reflection decoder) are cut at every position k<len when len<=512, otherwise at every length/count field boundary +-1 plus 64 random positions; each strict prefix is fed to the real decoder, which must return an error. Evaluations count prefixes. Distinct non-trivial = distinct (entry point, signature, length) whose full encoding the decoder accepts.")
+	c.Note("rule", "valid encodings (messages, dynamic values, typed data of random signatures, MetaObject, ObjectReference, ServiceInfo, CapabilityMap, Go values through the reflection decoder) are cut at every position k<len when len<=512, otherwise at every length/count field boundary +-1, around 4 KiB .. 128 KiB into every string or buffer longer than 4 KiB, plus 64 random positions; stream long = data whose last element is a string / buffer of 64 KiB .. 200 KiB; each strict prefix is fed to the real decoder, which must return an error. Evaluations count prefixes. Distinct non-trivial = distinct (entry point, signature, length) whose full encoding the decoder accepts.")
 	exh := 512
 	scal := append(append([]rc.Kind{}, rc.AllScalars...), rc.Dyn)
 	inner := rc.GenOpts{Depth: 2, Width: 3, ComparableKeys: true, MaxAnonNest: 3}
@@ -178,10 +192,18 @@ func c08(c *wk.Ctx) {
 	c.Cases("typed", c.Pick(1500, 50000), func(i int, rng *rand.Rand) {
 		t := rc.GenType(rng, rc.GenOpts{Depth: 4, Width: 4, Scalars: scal, ComparableKeys: true, TemplateNames: true, MaxAnonNest: 4})
 		b := 100
-		v := fixDyn(rng, t, rc.GenValue(rng, t, rc.ValOpts{MaxLen: 4, MaxStr: 20, Budget: &b, DynDepth: 1, DynOpts: &inner}))
+		vo := rc.ValOpts{MaxLen: 4, MaxStr: 20, Budget: &b, DynDepth: 1, DynOpts: &inner}
+		if i%16 == 15 { // up to two strings / buffers of 4 KiB .. 70 KiB
+			long := 2
+			vo.LongStr = &long
+		}
+		v := fixDyn(rng, t, rc.GenValue(rng, t, vo))
 		enc, fields := rc.EncodeFields(t, v)
 		if len(enc) == 0 {
 			return
+		}
+		if len(enc) > 4096 {
+			c.Count("typed_data_with_long_strings", 1)
 		}
 		ty, err := signature.Parse(t.Sig())
 		if err != nil {
@@ -202,6 +224,55 @@ func c08(c *wk.Ctx) {
 		}
 		if c.WantSample() && i%100 == 2 {
 			c.Sample(map[string]interface{}{"stream": "typed", "signature": t.Sig(), "len": len(enc)})
+		}
+	})
+
+	// long: a string / buffer of 64 KiB .. 200 KiB as the LAST thing decoded (a reader that works in
+	// chunks must still notice that the last chunk is missing)
+	c.Cases("long", c.Pick(60, 1500), func(i int, rng *rand.Rand) {
+		n := []int{65535, 65536, 65537, 70000, 100000, 131073, 200000}[rng.Intn(7)]
+		b := make([]byte, n)
+		for k := range b {
+			b[k] = byte(' ' + rng.Intn(95))
+		}
+		long := string(b)
+		var t *rc.Type
+		var v interface{}
+		switch i % 6 {
+		case 0:
+			t, v = rc.T(rc.String), long
+		case 1:
+			t, v = rc.TupleOf(rc.T(rc.Int32), rc.T(rc.String)), rc.Tup{int32(rng.Int31()), long}
+		case 2:
+			t, v = rc.ListOf(rc.T(rc.String)), []interface{}{"a", "bc", long}
+		case 3:
+			t, v = rc.MapOf(rc.T(rc.Uint32), rc.T(rc.String)), []rc.KV{{K: uint32(1), V: long}}
+		case 4:
+			t, v = rc.StructOf("Tail", []string{"n", "text"}, rc.T(rc.Uint16), rc.T(rc.String)), rc.Tup{uint16(7), long}
+		default:
+			t, v = rc.T(rc.Raw), b
+		}
+		enc, fields := rc.EncodeFields(t, v)
+		detail := map[string]interface{}{"signature": t.Sig(), "class": "long-tail/" + truncClass(t), "long_len": n}
+		ks := cuts(rng, len(enc), fields, 0)
+		if ty, err := signature.Parse(t.Sig()); err == nil && t.K != rc.Raw {
+			cutAll(c, "long", i, "signature.TypeReader.Read", enc, ks, func(b []byte) error {
+				_, err := ty.Reader().Read(bytes.NewReader(b))
+				return err
+			}, detail)
+		}
+		if t.K != rc.Raw { // raw buffers exist only inside dynamic values
+			cutAll(c, "long", i, "encoding.Decoder.Decode", enc, ks, func(b []byte) error {
+				return encoding.NewDecoder(encoding.DefaultCap(), bytes.NewReader(b)).Decode(reflect.New(goType(t)).Interface())
+			}, map[string]interface{}{"signature": t.Sig(), "class": "long-tail/" + truncClass(t), "long_len": n})
+		}
+		denc, dfields := rc.EncodeFields(rc.T(rc.Dyn), rc.DynV{T: t, V: v})
+		cutAll(c, "long", i, "value.NewValue", denc, cuts(rng, len(denc), dfields, 0), func(b []byte) error {
+			_, err := value.NewValue(bytes.NewReader(b))
+			return err
+		}, map[string]interface{}{"signature": t.Sig(), "class": "long-tail/" + truncClass(t), "long_len": n})
+		if c.WantSample() && i%20 == 0 {
+			c.Sample(map[string]interface{}{"stream": "long", "signature": t.Sig(), "long_len": n, "cuts": len(ks)})
 		}
 	})
 
